@@ -227,6 +227,12 @@ def record(check, n, seed):
         cells = c01.rand_heap(rng)
         if len(cells) > 8 and rng.random() < 0.5:
             continue
+        # one list in four graphs becomes a list whose iteration raises part-way (at a random position)
+        lists = [c for c in cells if c['cls'] == 'list']
+        if lists and rng.random() < 0.25:
+            c = rng.choice(lists)
+            c['cls'] = 'badlist'
+            c['items'].insert(rng.randint(0, len(c['items'])), {'k': 'str', 's': '!'})
         ops = rand_path(rng, cells)
         root = {'k': 'ref', 'a': 1}
         heap = codec.Heap(cells, CLASSES, fns=tspec.FNS)
